@@ -336,3 +336,20 @@ Example poll_example :
   read_stages [([MTicket; MTicket; MData [1; 2; 3]], [(None, 0); (None, 0); (None, 0); (None, 0)])] r_init []
   = [(RBytes [], 1, false); (RBytes [], 2, false); (RBytes [1; 2; 3], 2, false); (RPending, 2, false)].
 Proof. vm_compute. reflexivity. Qed.
+
+(* ---- the sender's own fragmentation ----------------------------------------------------------- *)
+From TV Require Import Model.C14_Fragment Proofs.C14_Fragment.
+
+(* _sendMsg for EVERY record size k >= 1 and every message: the record payloads concatenate to the
+   message, each carries between 1 and k bytes; only an empty message gives a single empty record
+   (so no zero-length handshake/heartbeat record is ever produced, whatever divides what) *)
+Theorem sender_fragmentation_exact :
+  forall k buf, 1 <= k ->
+  concat (fragment k buf) = buf /\
+  Forall (fun r => zlen r <= k) (fragment k buf) /\
+  (buf <> [] -> Forall (fun r => 1 <= zlen r) (fragment k buf)) /\
+  (buf = [] -> fragment k buf = [[]]).
+Proof. exact fragment_spec. Qed.
+
+Example fragment_example : fragment 4 [1; 2; 3; 4; 5; 6; 7; 8] = [[1; 2; 3; 4]; [5; 6; 7; 8]].
+Proof. vm_compute. reflexivity. Qed.
